@@ -76,7 +76,9 @@ Definition name_of (T : list (Z * string)) (v : Z) : enum_val :=
 Inductive gprop :=
 | GStack (v : Z)                        (* GNU_PROPERTY_STACK_SIZE: one native word *)
 | GWord (ty : Z) (v : Z)                (* x86 / AArch64 bit-mask properties: one 4-byte word *)
-| GRaw (ty : Z) (data : list Z).        (* any other type or size, e.g. NO_COPY_ON_PROTECTED (empty) *)
+| GRaw (ty : Z) (data : list Z).        (* any other type or size, e.g. NO_COPY_ON_PROTECTED (empty), or a
+                                           bit-mask type that declares a size other than 4: the list is
+                                           framed by pr_datasz, the data are the pr_datasz bytes *)
 
 Definition GNU_PROPERTY_STACK_SIZE := 1.
 Definition word_prop_types : list Z := [0xc0000002; 0xc0008002; 0xc0010001; 0xc0010002; 0xc0000000].
@@ -202,10 +204,10 @@ Definition wf_prop (c : scfg) (pp : gprop * list Z) : bool :=
   | GStack v => unative c v
   | GWord ty v => is_word_prop ty && u32 v
   | GRaw ty d => u32 ty && all_bytes d &&
-                 (* not one of the integer kinds: a stack size of native width is GStack, and the
-                    bit-mask properties are 4 bytes by definition (GWord) *)
+                 (* not one of the integer kinds: a stack size of native width is GStack, a bit-mask
+                    property of 4 bytes is GWord *)
                  negb ((ty =? GNU_PROPERTY_STACK_SIZE) && (zlen d =? Z.of_nat (native c))) &&
-                 negb (is_word_prop ty)
+                 negb (is_word_prop ty && (zlen d =? 4))
   end.
 
 Definition wf_entry (c : scfg) (e : Z * Z * Z) : bool :=
